@@ -291,6 +291,10 @@ def unordered_iterations():
                     # unwrap list(x) / tuple(x) / sorted is fine
                     if isinstance(core, ast.Call) and isinstance(core.func, ast.Name) and core.func.id in ('list', 'tuple') and core.args:
                         core = core.args[0]
+                    # x.copy() / x.union(...) / x.difference(...) of an unordered container is unordered, too
+                    if isinstance(core, ast.Call) and isinstance(core.func, ast.Attribute) and \
+                            core.func.attr in ('copy', 'union', 'difference', 'intersection', 'symmetric_difference'):
+                        core = core.func.value
                     cs = ast.unparse(core)
                     if cs in unordered or isinstance(core, (ast.Set, ast.SetComp)) or (
                             isinstance(core, ast.Call) and isinstance(core.func, ast.Name) and core.func.id in UNORDERED_CTORS):
